@@ -4,6 +4,7 @@ import XalanModel.C01.WalkerProofs
 import XalanModel.C01.CoreProofs
 import XalanModel.C01.CoreSpecProofs
 import XalanModel.C01.CoreCompile
+import XalanModel.C01.SpecScope
 /-!
 # C01 — the transformation result is the tree XSLT 1.0 defines
 
@@ -365,5 +366,67 @@ open XalanModel.C01.CoreSpec in
 /-- the fragment test accepts `exSheet` (two rules: literal result element, apply-templates, text, value-of, if, for-each) -/
 example : inFragment exSheet = true := by
   simp [inFragment, exSheet, layoutOf, modesL, modesI, fragL, fragI]
+
+/-! ## the scope of attribute sets (XSLT §7.1.4: only top-level variables and parameters are visible) -/
+
+/-- **Specification level.**  Whatever the instruction that uses attribute sets (literal result element, `xsl:element`,
+`xsl:copy`, another attribute set) has bound locally — variables `v`, passed parameters `p` — the events the named
+sets produce are the same: their bodies are instantiated with the global bindings `genv` only. -/
+theorem attribute_sets_see_only_globals (q : Quirks) (ss : Stylesheet) (d : Doc) (genv : List (String × Val)) (f : Nat)
+    (names : List String) (c : Ctx) (v p : List (String × Val)) :
+    useAttrSets q ss d genv f names { c with vars := v, passed := p } = useAttrSets q ss d genv f names c :=
+  (useAttr_scope q ss d genv f).1 names c v p
+
+/-- **Engine level** (`ElemAttributeSet::startElement`: `pushCurrentStackFrameIndex(getGlobalStackFrameIndex())`).
+With the current stack frame index set to the global one, a variable reference returns the global binding — whatever
+the frame of the template instance that uses the set (`frame`: its variables, claimed and passed parameters, element
+frames) and all its callers (`older`) hold, including bindings of the same name. -/
+theorem variables_attribute_set_scope (frame older globals : List Entry) (n : Nat) (act : Bool)
+    (hg : ∀ e ∈ globals, ∃ m v, e = Entry.var m v) :
+    let stack := frame ++ .ctxMarker :: (older ++ .ctxMarker :: (globals ++ [.elemFrame 0, .ctxMarker]))
+    let s : VStack := { stack := stack, cur := stack.length, glob := globals.length + 2, marked := true, activating := act }
+    ((s.setCurrentStackFrameIndex (some s.glob)).getVariable n).map (·.1) = some ((globalBindings globals).lookup n) := by
+  intro stack s
+  have hlen : stack.length = frame.length + 1 + (older.length + 1 + (globals.length + 2)) := by
+    simp [stack]; omega
+  have hdrop : stack.drop (stack.length - (globals.length + 2)) = globals ++ [.elemFrame 0, .ctxMarker] := by
+    have hs : stack = (frame ++ Entry.ctxMarker :: (older ++ [Entry.ctxMarker])) ++ (globals ++ [Entry.elemFrame 0, Entry.ctxMarker]) := by
+      simp [stack]
+    have hl : stack.length - (globals.length + 2) = (frame ++ Entry.ctxMarker :: (older ++ [Entry.ctxMarker])).length := by
+      simp [hlen]; omega
+    rw [hl, hs, List.drop_left]
+  have hdl : (globals ++ [Entry.elemFrame 0, Entry.ctxMarker]).dropLast = globals ++ [Entry.elemFrame 0] := by
+    have : globals ++ [Entry.elemFrame 0, Entry.ctxMarker] = (globals ++ [Entry.elemFrame 0]) ++ [Entry.ctxMarker] := by simp
+    rw [this, List.dropLast_concat]
+  have hnm : NoMarker globals := by
+    intro e he hm
+    obtain ⟨m, v, hv⟩ := hg e he
+    rw [hv] at hm; cases hm
+  have hloc := findLocal_globals n act globals hg
+  have hglob : findGlobal n (globals ++ [Entry.elemFrame 0]) = (globalBindings globals).lookup n :=
+    findGlobal_globals n globals [Entry.elemFrame 0] hnm (by simp [findGlobal])
+  have hgt : ¬ (globals.length + 2 > stack.length) := by rw [hlen]; omega
+  simp only [getVariable, findEntry, setCurrentStackFrameIndex, Option.getD_some, s, hgt, if_false, hdrop, hdl]
+  cases hfl : findLocal n false act (globals ++ [Entry.elemFrame 0]) with
+  | some r =>
+    have : (globalBindings globals).lookup n = some r.1 := by rw [← hloc, hfl]; rfl
+    simp [this]
+  | none =>
+    have hnone : (globalBindings globals).lookup n = none := by rw [← hloc, hfl]; rfl
+    simp [hnone, hgt, hdrop, hdl, hglob]
+
+/-- the hypotheses are met: two globals, a using template with a same-named variable and a same-named passed parameter -/
+example : ∀ e ∈ [Entry.var 1 99, .var 4 40], ∃ m v, e = Entry.var m v := by
+  intro e he; simp at he; rcases he with h | h <;> subst h <;> exact ⟨_, _, rfl⟩
+
+/-- **What the index buys** (`_counterexample`, by `decide`): the same lookup with the *current* frame index left in
+place — `pushCurrentStackFrameIndex(getCurrentStackFrameIndex())` — returns the using template's local binding of the
+name (10) instead of the global one (99). -/
+theorem variables_attribute_set_wrong_index_counterexample :
+    let stack : List Entry := [.var 1 10, .ctxMarker, .ctxMarker, .var 1 99, .elemFrame 0, .ctxMarker]
+    let s : VStack := { stack := stack, cur := 6, glob := 3, marked := true, activating := false }
+    ((s.setCurrentStackFrameIndex (some s.cur)).getVariable 1).map (·.1) = some (some 10) ∧
+    ((s.setCurrentStackFrameIndex (some s.glob)).getVariable 1).map (·.1) = some (some 99) := by
+  decide
 
 end XalanModel.Props.C01
